@@ -4,10 +4,14 @@
 package main
 
 import (
+	"io"
+	"log"
+
 	"bufio"
 	"encoding/hex"
 	"flag"
 	"fmt"
+	"github.com/lab5e/lospan/pkg/lg"
 	"math/rand"
 	"os"
 	"sort"
@@ -72,6 +76,10 @@ func genKey(rng *rand.Rand) []byte {
 }
 
 func main() {
+	// silence the library's logging
+	nolog := func(string, ...any) {}
+	lg.Debug, lg.Info, lg.Warning, lg.Error = nolog, nolog, nolog, nolog
+	log.SetOutput(io.Discard)
 	suite := flag.String("suite", "", "suite name")
 	tier := flag.String("tier", "quick", "quick|thorough")
 	seed := flag.Int64("seed", 1, "PRNG seed")
